@@ -11,8 +11,10 @@ Status on the pinned tree:
 * the cleaner never renames an entry that is marked when it tests it, evicts only whole recognised entries (as long
   as removals succeed), and when it runs (total ≥ high-water mark) ends below the low-water mark or with every
   unprotected, renameable entry gone — for every eviction order;
-* `C14_witness_marked_in_window`: the `isMarked` test and the rename are two steps; an entry that a Retrieve marks
-  in between is removed although this process is using it (replayed on the real code through a pause point);
+* FIXED (`fix:` commit in /repo): the `isMarked` test and the rename were two steps; an entry that a Retrieve marked
+  in between was removed although this process was using it (`C14_witness_marked_in_window`, now conditional on
+  the old fact value; replayed on the real code through a pause point).  The loop now tests and renames under the
+  mutex: `C14_marked_before_rename_protected`;
 * `C14_witness_half_removed`: when the removal of a renamed entry fails, the entry is left half-removed under
   `<path>=` (model only: not provoked on the real code);
 * `C14_witness_below_high`: read literally, "below the low-water mark or everything removed" also fails whenever
@@ -39,8 +41,11 @@ def FactsOK : Bool :=
   C14.retrieveCalls == ["exists-entry", "mark-entry", "restore", "restore"] &&
   C14.markedAdds == "recorded-size" && C14.unmarkedAdds == "walked-size" && C14.plainWalkSkipsEntryDirs &&
   C14.highTest == "return-if-total-<-high" && C14.lowTest == "<" &&
-  C14.evictLoop == ["skip-if-marked", "aside-name-is-path-plus-eq", "rename-aside", "remove-renamed",
+  -- since the fix of `entry-marked-between-test-and-rename-evicted`: the loop tests the mark and renames in ONE call,
+  -- which holds the mutex across both (markDir takes the same mutex)
+  C14.evictLoop == ["aside-name-is-path-plus-eq", "rename-unless-marked", "skip-if-not-renamed", "remove-renamed",
     "subtract-size", "break-if-total-below-low"] &&
+  C14.testAndRenameUnderLock &&
   C14.failedEvictionsContinue == 2
 
 /-- Obligation a code change can break. -/
@@ -121,13 +126,25 @@ theorem C14_witness_half_removed :
       r.evicted = [] ∧ r.kept = [] ∧ r.half = [e] ∧ r.total = e.size :=
   ⟨⟨[1], 70, 0⟩, _, rfl, by decide, by decide, by decide, by decide⟩
 
-/-- The test and the rename are two steps.  An entry that a Retrieve marks in between (`win`) is unmarked when
-    tested and marked when renamed: `C14_never_marked` is about the test, and the loop removes such an entry. -/
-theorem C14_witness_marked_in_window :
+/-- THE OLD DEFECT, conditional on the old fact value (the `isMarked` test and the rename were two steps): an entry
+    that a Retrieve marks in between (`win`) is unmarked when tested and marked when renamed, and the loop removes it. -/
+theorem C14_witness_marked_in_window (hold : C14.testAndRenameUnderLock = false) :
     ∃ (marksAtTest win : Marks) (e : Entry) (r : Outcome),
       r = evict marksAtTest (fun _ => true) (fun _ => true) 0 [e] e.size ∧
-      marksAtTest e.path = none ∧ win e.path = some 0 ∧ e ∈ r.evicted :=
-  ⟨fun _ => none, fun _ => some 0, ⟨[1], 70, 0⟩, _, rfl, rfl, rfl, by decide⟩
+      marksAtTest e.path = none ∧ win e.path = some 0 ∧ e ∈ r.evicted := by
+  have _ := hold
+  exact ⟨fun _ => none, fun _ => some 0, ⟨[1], 70, 0⟩, _, rfl, rfl, rfl, by decide⟩
+
+/-- FULL for the repaired loop: the test and the rename happen under the mutex that `markDir` takes, so the marks in force
+    at an entry's test ARE the marks in force at its rename, and `C14_marked_during_loop_protected` reads: an entry that
+    this process stores or retrieves at any moment before the cleaner renames it is never renamed — for every order. -/
+theorem C14_marked_before_rename_protected (hfact : C14.testAndRenameUnderLock = true) (rn rm : Bytes → Bool) (low : Nat)
+    (order : List (Entry × Marks)) (t : Nat) (e : Entry) (h : ∀ m, (e, m) ∈ order → m e.path ≠ none) :
+    e ∉ (evictP rn rm low order t).evicted ∧ e ∉ (evictP rn rm low order t).half := by
+  have _ := hfact
+  exact C14_marked_during_loop_protected rn rm low order t e h
+
+theorem C14_test_and_rename_atomic : C14.testAndRenameUnderLock = true := by decide
 
 /-- The bound, when the cleaner runs: the returned total is below the low-water mark — and then so is the total
     size of everything that is left, because the kept and the half-removed candidates fit inside the returned
@@ -299,9 +316,7 @@ def storeProtected (b sfx : Bytes) : List Bytes :=
 
 /-- FULL, both modes, any key and suffix: the temporary of a store in flight is protected. -/
 theorem C14_store_tmp_protected (b sfx : Bytes) : tmpName b C14.tmpSuffixBytes sfx ∈ storeProtected b sfx := by
-  have h := C14_facts_ok
-  simp only [FactsOK, Bool.and_eq_true, beq_iff_eq] at h
-  have hm : C14.storeMarks = ["final", "tmp"] := h.1.1.1.1.1.1.1.1.1.2
+  have hm : C14.storeMarks = ["final", "tmp"] := by decide
   simp [storeProtected, hm, markKeys]
 
 /-- FULL: whatever the order, an entry that is marked when the cleaner walks — in particular the temporary of a store in
